@@ -1,8 +1,11 @@
 package main
 
 import (
+	"bytes"
 	"fmt"
 	"strings"
+
+	simdjson "github.com/minio/simdjson-go"
 )
 
 // grammar-directed generator of JSON texts with random insignificant white space
@@ -320,6 +323,98 @@ func truncatedObjects(r *Rng, n int) [][]byte {
 		cut := len(s) - r.Intn(40)
 		pad := strings.Repeat(" ", r.Intn(64))
 		out = append(out, []byte("{"+pad+s[1:cut]))
+	}
+	return out
+}
+
+// handoverBoundary: the 64-byte block boundary at which stage 1 handed over its nth index
+// buffer for msg (found by running stage 1 alone; used to place inputs, never to judge them).
+func handoverBoundary(msg []byte, nd bool, nth int) int {
+	bufs, _ := simdjson.VerifStage1(append([]byte{}, msg...), nd)
+	if len(bufs) <= nth+1 {
+		return -1
+	}
+	pos := -1
+	for k := 0; k <= nth; k++ {
+		for _, inc := range bufs[k] {
+			pos += int(inc)
+		}
+	}
+	return (pos/64 + 1) * 64
+}
+
+// handoverEscapeDocs: an escape sequence whose backslash is the last byte of the 64-byte
+// block after which stage 1 hands over a full index buffer (first and second hand-over) and
+// whose escaped character opens the next block — the carry "previous block ended in an odd
+// backslash run" has to survive the hand-over. Prefixes of several structural densities
+// and alignments; the escape also one byte early and late. nd = newline-delimited lines.
+func handoverEscapeDocs(nd bool, leads []int) [][]byte {
+	units := []string{"1,", "12,", "0, ", `"a",`, "[],"}
+	head := "["
+	if nd {
+		units = []string{"{\"a\":1}\n", "[1]\n", "[1,2]\n", "{\"a\":\"b\"}\n", "{\"a\":1} \n"}
+		head = ""
+	}
+	var out [][]byte
+	for _, u := range units {
+		for _, lead := range leads {
+			P := []byte(head + strings.Repeat(" ", lead) + strings.Repeat(u, 3200))
+			for nth := 0; nth < 2; nth++ {
+				B := handoverBoundary(P, nd, nth)
+				if B < 0 {
+					continue
+				}
+				for _, k := range []int{0, 2, 5} {
+					q := len(head) + lead
+					for q+len(u) <= B-3-k {
+						q += len(u)
+					}
+					pre := append([]byte{}, P[:q]...)
+					open := 0
+					if nd {
+						open = 1 // the string sits in an array: ["...."]
+					}
+					for len(pre) < B-2-k-open {
+						pre = append(pre, ' ')
+					}
+					if nd {
+						pre = append(pre, '[')
+					}
+					probe := append(append(append([]byte{}, pre...), '"'), bytes.Repeat([]byte{'x'}, k+1)...)
+					if nd {
+						probe = append(probe, '"', ']', '\n')
+					} else {
+						probe = append(probe, '"', ',')
+					}
+					probe = append(probe, P[q:]...)
+					if handoverBoundary(probe, nd, nth) != B {
+						continue // the string moved the fill into another block
+					}
+					for _, esc := range []string{`\"z"`, `\\"`, `\n\\\"q"`} {
+						for shift := -1; shift <= 1; shift++ {
+							b := append([]byte{}, pre...)
+							for j := 0; j < shift; j++ {
+								b = append(b, ' ')
+							}
+							b = append(b, '"')
+							for len(b) < B-1+shift {
+								b = append(b, 'x')
+							}
+							b = append(b, esc...)
+							if nd {
+								b = append(b, ']', '\n')
+								b = append(b, strings.Repeat(u, 40)...)
+								b = append(b, "[\"t\\\"u\"]\n"...)
+							} else {
+								// more than 64 bytes must follow, or the tail is processed in the same round
+								b = append(b, `,"t\"u"`+strings.Repeat(", 0", 50)+"]"...)
+							}
+							out = append(out, b)
+						}
+					}
+				}
+			}
+		}
 	}
 	return out
 }
